@@ -801,8 +801,13 @@ func (s retScen) String() string {
 	return fmt.Sprintf("preview at %s, real run at %s%s", retPosName[s.tp], retPosName[s.tr], t)
 }
 
-func retFilterScens(full bool) []retScen {
-	if !full {
+// scenario levels: -1 = four scenarios (nothing due; due at the real run only; due at both with a read after the
+// preview; overdue with a read before the real run), 0 = seven, 1 = the full product.
+func retFilterScens(level int) []retScen {
+	switch {
+	case level < 0:
+		return []retScen{{0, 0, 0}, {0, 2, 0}, {2, 2, 1}, {0, 3, 2}}
+	case level == 0:
 		return []retScen{{0, 0, 0}, {0, 2, 0}, {2, 2, 0}, {2, 2, 1}, {1, 2, 0}, {3, 3, 0}, {0, 3, 2}}
 	}
 	var out []retScen
@@ -817,8 +822,8 @@ func retFilterScens(full bool) []retScen {
 	return out
 }
 
-func retIDScens(full bool) []retScen {
-	if !full {
+func retIDScens(level int) []retScen {
+	if level <= 0 {
 		return []retScen{{-1, 0, 0}, {-1, 2, 0}, {-1, 3, 2}}
 	}
 	var out []retScen
@@ -1093,7 +1098,7 @@ type retPlan struct {
 	cfgs           []string // nil = all
 	popLevel       int
 	opLevel        int
-	fullScens      bool
+	scenLevel      int
 	idOps          bool
 }
 
@@ -1143,7 +1148,7 @@ func (p retPlan) items() []retItem {
 func (p retPlan) runItems(r *runner.Run, e *retEnv, items []retItem, me, of int, deadline time.Time, c *retCounters) {
 	var curG *retGeom
 	curCfg := ""
-	fsc, isc := retFilterScens(p.fullScens), retIDScens(p.fullScens)
+	fsc, isc := retFilterScens(p.scenLevel), retIDScens(p.scenLevel)
 	for i := me; i < len(items); i += of {
 		it := items[i]
 		if time.Now().After(deadline) {
@@ -1178,34 +1183,35 @@ func retStorePlans(r *runner.Run) []retPlan {
 	noDeliveredOnly := []string{"queue_retention.max_age", "dlq_retention.max_age", "dlq_retention.max_depth=1", "all"}
 	if r.Quick() {
 		return []retPlan{
-			{layer: "store", backend: "memory", geoms: []int{0}, popLevel: 0, opLevel: 2, fullScens: true, idOps: true},
-			{layer: "store", backend: "memory", geoms: []int{0}, popLevel: 1, opLevel: 1, fullScens: false, idOps: true},
-			{layer: "store", backend: "memory", geoms: []int{1}, popLevel: 0, opLevel: 1, fullScens: true, idOps: true},
-			{layer: "store", backend: "sqlite", geoms: []int{0}, cfgs: noDeliveredOnly, popLevel: 0, opLevel: 0, fullScens: false, idOps: true},
-			{layer: "store", backend: "sqlite", geoms: []int{1}, cfgs: []string{"all"}, popLevel: -1, opLevel: 0, fullScens: false, idOps: false},
+			{layer: "store", backend: "memory", geoms: []int{0}, popLevel: 0, opLevel: 1, scenLevel: 1, idOps: true},
+			{layer: "store", backend: "memory", geoms: []int{0}, popLevel: 0, opLevel: 2, scenLevel: 0},
+			{layer: "store", backend: "memory", geoms: []int{0}, popLevel: 1, opLevel: 0, scenLevel: 0, idOps: true},
+			{layer: "store", backend: "memory", geoms: []int{1}, popLevel: 0, opLevel: 1, scenLevel: 0, idOps: true},
+			{layer: "store", backend: "sqlite", geoms: []int{0}, cfgs: noDeliveredOnly, popLevel: -1, opLevel: 0, scenLevel: 0, idOps: true},
+			{layer: "store", backend: "sqlite", geoms: []int{1}, cfgs: []string{"all"}, popLevel: -1, opLevel: 0, scenLevel: -1},
 		}
 	}
 	return []retPlan{
-		{layer: "store", backend: "memory", geoms: []int{0, 1}, popLevel: 3, opLevel: 2, fullScens: true, idOps: true},
-		{layer: "store", backend: "sqlite", geoms: []int{0}, popLevel: 1, opLevel: 1, fullScens: false, idOps: true},
-		{layer: "store", backend: "sqlite", geoms: []int{0, 1}, popLevel: 0, opLevel: 1, fullScens: true, idOps: true},
+		{layer: "store", backend: "memory", geoms: []int{0, 1}, popLevel: 3, opLevel: 2, scenLevel: 1, idOps: true},
+		{layer: "store", backend: "sqlite", geoms: []int{0}, popLevel: 1, opLevel: 1, scenLevel: 0, idOps: true},
+		{layer: "store", backend: "sqlite", geoms: []int{0, 1}, popLevel: 0, opLevel: 1, scenLevel: 1, idOps: true},
 	}
 }
 
 func retLayerPlans(r *runner.Run) []retPlan {
 	if r.Quick() {
 		return []retPlan{
-			{layer: "admin", backend: "memory", geoms: []int{0}, popLevel: 0, opLevel: 0, fullScens: false, idOps: true},
-			{layer: "admin", backend: "sqlite", geoms: []int{0}, cfgs: []string{"all"}, popLevel: 0, opLevel: 0, fullScens: false, idOps: true},
-			{layer: "mcp-proxy", backend: "memory", geoms: []int{0}, cfgs: []string{"dlq_retention.max_age", "all"}, popLevel: -1, opLevel: 0, fullScens: false, idOps: false},
-			{layer: "mcp", backend: "sqlite", geoms: []int{0}, cfgs: []string{"all"}, popLevel: -1, opLevel: 0, fullScens: false, idOps: false},
+			{layer: "admin", backend: "memory", geoms: []int{0}, popLevel: 0, opLevel: 0, scenLevel: 0},
+			{layer: "admin", backend: "sqlite", geoms: []int{0}, cfgs: []string{"all"}, popLevel: -1, opLevel: 0, scenLevel: 0, idOps: true},
+			{layer: "mcp-proxy", backend: "memory", geoms: []int{0}, cfgs: []string{"all"}, popLevel: -1, opLevel: 0, scenLevel: 0},
+			{layer: "mcp", backend: "sqlite", geoms: []int{0}, cfgs: []string{"all"}, popLevel: -1, opLevel: 0, scenLevel: -1},
 		}
 	}
 	return []retPlan{
-		{layer: "admin", backend: "memory", geoms: []int{0, 1}, popLevel: 1, opLevel: 1, fullScens: true, idOps: true},
-		{layer: "admin", backend: "sqlite", geoms: []int{0, 1}, popLevel: 0, opLevel: 1, fullScens: false, idOps: true},
-		{layer: "mcp-proxy", backend: "memory", geoms: []int{0, 1}, popLevel: 0, opLevel: 1, fullScens: false, idOps: true},
-		{layer: "mcp", backend: "sqlite", geoms: []int{0, 1}, cfgs: []string{"dlq_retention.max_age", "all"}, popLevel: 0, opLevel: 0, fullScens: false, idOps: true},
+		{layer: "admin", backend: "memory", geoms: []int{0, 1}, popLevel: 1, opLevel: 1, scenLevel: 1, idOps: true},
+		{layer: "admin", backend: "sqlite", geoms: []int{0, 1}, popLevel: 0, opLevel: 1, scenLevel: 0, idOps: true},
+		{layer: "mcp-proxy", backend: "memory", geoms: []int{0, 1}, popLevel: 0, opLevel: 1, scenLevel: 0, idOps: true},
+		{layer: "mcp", backend: "sqlite", geoms: []int{0, 1}, cfgs: []string{"dlq_retention.max_age", "all"}, popLevel: 0, opLevel: 0, scenLevel: 0, idOps: true},
 	}
 }
 
@@ -1241,7 +1247,7 @@ func retentionLayersPart(r *runner.Run) {
 	if !retSelfCheck(r) {
 		return
 	}
-	deadline := start.Add(runner.Pick(r, 35*time.Second, 5*time.Minute))
+	deadline := start.Add(runner.Pick(r, 30*time.Second, 5*time.Minute))
 	var wg sync.WaitGroup
 	for _, p := range retLayerPlans(r) {
 		workers := 1
